@@ -891,6 +891,55 @@ example : (match newTable C05Rebuild.env0 (C05Lang.csT.map (·.2)) with
     | .ok t => (abs t "foo.com".toList "/a".toList).map (·.service) == ["svc".toList] | .error _ => false) = true := by
   decide +kernel
 
+/-- helpers of the evaluated example below -/
+def envB : Env := { normURL := fun s => some s, globOK := fun _ => true }
+def pfB : ParseFloat := fun s =>
+  if s == "0.2500".toList then some (.fin (1/4)) else if s == "0.7500".toList then some (.fin (3/4)) else none
+def addB (svc src dst : String) (w : Rat) : RouteDef :=
+  { cmd := .add, service := svc.toList, src := src.toList, dst := dst.toList, weight := w }
+
+/-- **built_table_rebuild_ok**: for a table built by any command list the structural hypotheses of the round trip are
+theorems, not assumptions — every route sits at the `key` of an add's source (so `hostpath` splits the rendered prefix
+into the same host and path) and its host and path were accepted by `glob.Compile`. What remains are the property's
+own hypothesis `hk` (no route holds two targets with the same service, URL, tags and four-decimal weight) and the
+assumption `hu` about `net/url` (`url.Parse ∘ String` is idempotent on the stored URLs) -/
+theorem built_table_rebuild_ok {defs : List RouteDef} (h : newTable env defs = .ok t)
+    (hk : ∀ kv ∈ t, ∀ r ∈ kv.2, (r.targets.map C05Rebuild.dupKey).Nodup)
+    (hu : ∀ kv ∈ t, ∀ r ∈ kv.2, ∀ tg ∈ r.targets, tg.url ≠ [] ∧ env.normURL tg.url = some tg.url) :
+    C05Rebuild.RebuildOK env t :=
+  C05From.rebuildOK_of_built h hk hu
+
+/-- **round_trip_of_built_table**: the last sentence of the property for "every table such sequences produce" — a table
+`NewTable`/`NewTableCustom` built from any command list, whose text is readable (`TextOK`), with `hk` and `hu` as above:
+`NewTable(t.String())` succeeds, the rebuilt table is good, routes per host and path the same targets in order with
+the weight to four decimals, and renders to the normalised text of `t` (no `Good`, `Sorted` or structural `RebuildOK`
+hypothesis is left: they are consequences of being built by commands) -/
+theorem round_trip_of_built_table (pf : ParseFloat)
+    (hpf : ∀ w : Rat, 0 < w → pf (fmt4 w) = some (.fin (round4Rat w)))
+    {defs : List RouteDef} (h : newTable env defs = .ok t)
+    (htext : ∀ hst, ∀ r ∈ t.get hst, ∀ tg ∈ r.targets, C05Text.TextOK r tg)
+    (hk : ∀ kv ∈ t, ∀ r ∈ kv.2, (r.targets.map C05Rebuild.dupKey).Nodup)
+    (hu : ∀ kv ∈ t, ∀ r ∈ kv.2, ∀ tg ∈ r.targets, tg.url ≠ [] ∧ env.normURL tg.url = some tg.url) :
+    ∃ t2, loadTable env pf (render t) = .ok t2 ∧ Good env t2 ∧
+      abs t2 = (fun h p => weigh ((abs t h p).map norm4)) ∧ render t2 = render (C05Fix.normTable t) := by
+  have hg := good_newTable h
+  have ho := built_table_rebuild_ok h hk hu
+  obtain ⟨t2, hl, hg2, ha⟩ := render_parse_roundtrip pf hpf hg htext ho
+  obtain ⟨t2', hl', hr⟩ := rendered_text_is_fixpoint pf hpf hg (C05Fix.newTable_sorted h) htext ho
+  rw [hl] at hl'
+  injection hl' with hl'
+  subst hl'
+  exact ⟨t2, hl, hg2, ha, hr⟩
+
+/-- evaluated: a table built by commands (two hosts in different letter case, a weight command, a del), its text read
+back and rendered again -/
+example : (match newTable envB [addB "s" "Foo.com/a" "http://a:1/" (1/4), addB "t" "foo.COM/a" "http://b:1/" (3/4),
+      addB "u" "/" "http://c:1/" 0, { cmd := .del, service := "u".toList }] with
+    | .ok t => (match loadTable envB pfB (render t) with
+        | .ok t2 => render t2 == render (C05Fix.normTable t) && (abs t2 "foo.com".toList "/a".toList).length == 2
+        | .error _ => false)
+    | .error _ => false) = true := by decide +kernel
+
 /-! ### the forced hypotheses are necessary (witnesses; the same inputs are replayed on the real code from
 `corpus/c05.roundtrip.jsonl`, where they are recorded findings) -/
 
